@@ -64,6 +64,7 @@ def run(ctx, R):
     a64hsem.rule_mem_hsem(ctx, R)
     a64dsread.rule_dsread(ctx, R)
     a64dsread.rule_loopload(ctx, R)
+    a64dsread.rule_dsread_light(ctx, R)
     rtpreserve.rule_store_order(ctx, R, 'a64')
     rvhsem.rule_hsem(ctx, R)
     rvhsem.rule_mem_hsem(ctx, R)
